@@ -143,7 +143,7 @@ func inlineNewHelpers(repo string) inlineResult {
 	uniq := 0
 	for _, root := range moduleRoots {
 		dir := repo + "/" + root
-		for round := 0; round < 6; round++ {
+		for round := 0; round < 8; round++ {
 			pkgs, err := loadSyntax(dir, res.Overlay)
 			if err != nil {
 				res.Reason = "normalised copy does not load: " + err.Error()
@@ -162,7 +162,10 @@ func inlineNewHelpers(repo string) inlineResult {
 						}
 						src = b
 					}
-					out, n := inlineFile(p, f, src, &uniq, counts)
+					out, n := substExprHelpers(p, f, src, counts)
+					if n == 0 {
+						out, n = inlineFile(p, f, src, &uniq, counts)
+					}
 					if n > 0 {
 						res.Overlay[path] = out
 						changed = true
@@ -1329,4 +1332,221 @@ func litCallsOnly(info *types.Info, body *ast.BlockStmt, prm types.Object, lit *
 	}
 	ast.Inspect(body, visit)
 	return !bad && len(calls) > 0
+}
+
+// substExprHelpers: calls of NEW helpers whose body is a single `return <expr>` and whose receiver and arguments at the call
+// are plain (identifiers, field selections of identifiers, literals) are replaced, wherever they occur — conditions,
+// operands, select cases, function literals —, by that expression with the parameters substituted: the expression is
+// evaluated at exactly the point where the call was. A round that finds such calls does only this.
+func substExprHelpers(p *packages.Package, f *ast.File, src []byte, counts map[string]int) ([]byte, int) {
+	fset := p.Fset
+	off := func(pos token.Pos) int { return fset.Position(pos).Offset }
+	info := p.TypesInfo
+	type ehelper struct {
+		decl *ast.FuncDecl
+		expr ast.Expr
+		key  string
+	}
+	helpers := map[*types.Func]*ehelper{}
+	for _, d := range f.Decls {
+		fd, ok := d.(*ast.FuncDecl)
+		if !ok || fd.Body == nil || fd.Name.IsExported() || len(fd.Body.List) != 1 {
+			continue
+		}
+		key := declKey(p.Name, fd)
+		if knownFuncs[key] {
+			continue
+		}
+		rs, ok := fd.Body.List[0].(*ast.ReturnStmt)
+		if !ok || len(rs.Results) != 1 {
+			continue
+		}
+		obj, _ := info.Defs[fd.Name].(*types.Func)
+		if obj == nil {
+			continue
+		}
+		sig := obj.Type().(*types.Signature)
+		if sig.Variadic() || sig.TypeParams().Len() > 0 || sig.RecvTypeParams().Len() > 0 || sig.Results().Len() != 1 {
+			continue
+		}
+		hasLit := false
+		ast.Inspect(rs.Results[0], func(n ast.Node) bool {
+			if _, isLit := n.(*ast.FuncLit); isLit {
+				hasLit = true
+			}
+			// no recursion
+			if ce, isC := n.(*ast.CallExpr); isC && calleeFunc(info, ce) == obj {
+				hasLit = true
+			}
+			return true
+		})
+		if hasLit {
+			continue
+		}
+		// the result must have the declared result type without an implicit conversion that the context would change
+		if tv, ok := info.Types[rs.Results[0]]; !ok || !types.Identical(tv.Type, sig.Results().At(0).Type()) {
+			continue
+		}
+		helpers[obj] = &ehelper{fd, rs.Results[0], key}
+	}
+	if len(helpers) == 0 {
+		return src, 0
+	}
+	var plain func(e ast.Expr) bool
+	plain = func(e ast.Expr) bool {
+		switch x := e.(type) {
+		case *ast.Ident:
+			return true
+		case *ast.BasicLit:
+			return true
+		case *ast.SelectorExpr:
+			if sel, ok := info.Selections[x]; ok && sel.Kind() != types.FieldVal {
+				return false
+			}
+			return plain(x.X)
+		case *ast.ParenExpr:
+			return plain(x.X)
+		}
+		return false
+	}
+	var edits []edit
+	n := 0
+	used := map[*types.Func]int{}
+	ast.Inspect(f, func(nd ast.Node) bool {
+		ce, ok := nd.(*ast.CallExpr)
+		if !ok {
+			return true
+		}
+		fn := calleeFunc(info, ce)
+		h := helpers[fn]
+		if h == nil {
+			return true
+		}
+		// not inside the helper's own declaration
+		if ce.Pos() >= h.decl.Pos() && ce.End() <= h.decl.End() {
+			return true
+		}
+		sub := map[types.Object]string{}
+		okCall := !ce.Ellipsis.IsValid()
+		if h.decl.Recv != nil && len(h.decl.Recv.List) == 1 {
+			sel, isSel := ce.Fun.(*ast.SelectorExpr)
+			if !isSel || !plain(sel.X) {
+				okCall = false
+			} else if rt := info.TypeOf(sel.X); rt == nil || !types.Identical(rt, fn.Type().(*types.Signature).Recv().Type()) {
+				okCall = false
+			} else if len(h.decl.Recv.List[0].Names) == 1 {
+				sub[info.Defs[h.decl.Recv.List[0].Names[0]]] = "(" + string(src[off(sel.X.Pos()):off(sel.X.End())]) + ")"
+			}
+		}
+		ai := 0
+		for _, fld := range h.decl.Type.Params.List {
+			for _, nm := range fld.Names {
+				if ai >= len(ce.Args) || !plain(ce.Args[ai]) {
+					okCall = false
+				} else if at := info.TypeOf(ce.Args[ai]); at == nil || !types.Identical(at, info.Defs[nm].Type()) {
+					okCall = false // an implicit conversion at the call would be lost
+				} else {
+					sub[info.Defs[nm]] = "(" + string(src[off(ce.Args[ai].Pos()):off(ce.Args[ai].End())]) + ")"
+				}
+				ai++
+			}
+			if len(fld.Names) == 0 {
+				okCall = false
+			}
+		}
+		if !okCall || ai != len(ce.Args) {
+			return true
+		}
+		// names the expression refers to must mean the same thing at the call
+		scope := p.Types.Scope().Innermost(ce.Pos())
+		base := off(h.expr.Pos())
+		var es []edit
+		ast.Inspect(h.expr, func(x ast.Node) bool {
+			id, isId := x.(*ast.Ident)
+			if !isId {
+				return true
+			}
+			o := info.Uses[id]
+			if o == nil {
+				return true
+			}
+			if txt, isP := sub[o]; isP {
+				es = append(es, edit{off(id.Pos()) - base, off(id.End()) - base, txt})
+				return true
+			}
+			if _, isField := o.(*types.Var); isField && o.(*types.Var).IsField() {
+				return true
+			}
+			if _, isFn := o.(*types.Func); isFn && o.(*types.Func).Type().(*types.Signature).Recv() != nil {
+				return true // a method name after a dot
+			}
+			if scope == nil {
+				okCall = false
+				return true
+			}
+			if _, found := scope.LookupParent(id.Name, ce.Pos()); found != o {
+				okCall = false
+			}
+			return true
+		})
+		if !okCall {
+			return true
+		}
+		expr := string(applyEdits(append([]byte(nil), src[base:off(h.expr.End())]...), es))
+		edits = append(edits, edit{off(ce.Pos()), off(ce.End()), "(" + expr + ")"})
+		n++
+		used[fn]++
+		counts[h.key]++
+		return false // operands are plain: nothing to visit inside
+	})
+	if n == 0 {
+		return src, 0
+	}
+	// a helper all of whose calls (in the package) are gone is removed
+	total := map[*types.Func]int{}
+	for _, g := range p.Syntax {
+		ast.Inspect(g, func(nd ast.Node) bool {
+			if ce, ok := nd.(*ast.CallExpr); ok {
+				if fn := calleeFunc(info, ce); helpers[fn] != nil {
+					total[fn]++
+				}
+			}
+			return true
+		})
+	}
+	for fn, h := range helpers {
+		if used[fn] > 0 && used[fn] == total[fn] && !usedAsFuncValue(p, fn) {
+			start := h.decl.Pos()
+			if h.decl.Doc != nil {
+				start = h.decl.Doc.Pos()
+			}
+			edits = append(edits, edit{off(start), off(h.decl.End()), ""})
+		}
+	}
+	return applyEdits(src, edits), n
+}
+
+// usedAsFuncValue: fn is referenced somewhere other than as the callee of a call.
+func usedAsFuncValue(p *packages.Package, fn *types.Func) bool {
+	callee := map[*ast.Ident]bool{}
+	for _, g := range p.Syntax {
+		ast.Inspect(g, func(nd ast.Node) bool {
+			if ce, ok := nd.(*ast.CallExpr); ok {
+				switch f := ce.Fun.(type) {
+				case *ast.Ident:
+					callee[f] = true
+				case *ast.SelectorExpr:
+					callee[f.Sel] = true
+				}
+			}
+			return true
+		})
+	}
+	found := false
+	for id, o := range p.TypesInfo.Uses {
+		if o == fn && !callee[id] {
+			found = true
+		}
+	}
+	return found
 }
